@@ -165,5 +165,6 @@ func main() {
 	}
 	repo, out := os.Args[1], os.Args[2]
 	genFsPaths(repo, out)
+	genNondetSites(repo, out)
 	genArchTables(repo, out)
 }
